@@ -286,6 +286,136 @@ def check_charges(ctx: Ctx, ff, run):
     return pr
 
 
+# ------------------------------------------------------------ nucleic-acid strands (synthesised from NA.xml)
+
+_nuc_cache = {}
+
+
+def nuc_model(ctx: Ctx, base: str, pos: str):
+    """run-time reference atoms and look-up name of a nucleotide at a strand position, from the Lean model"""
+    k = (base, pos)
+    if k not in _nuc_cache:
+        ans = ctx.driver.ask([f"nuc.atoms\t{hexs(base)}\t{pos}"])[0]
+        atoms, _, nm = ans.partition("#")
+        _nuc_cache[k] = ([unhexs(a) for a in atoms.split(",")] if atoms else [], unhexs(nm))
+    return _nuc_cache[k]
+
+
+def check_strands(ctx: Ctx, ff, run, strands):
+    """the request is `strands` = [(chain id, [look-up base names])]: every residue carries exactly the atoms of its
+    run-time reference (model: base definition + 5TERM / 3TERM), is looked up under base + 5 / 3, and each strand
+    sums to -1 per phosphate (the 5'-terminal one is removed by design)"""
+    from pdb2pqr import na
+
+    pr = []
+    bio = run.biomolecule
+    bychain = {}
+    for res in bio.residues:
+        if isinstance(res, na.Nucleic):
+            bychain.setdefault(res.chain_id, []).append(res)
+    missed = {id(a) for a in (run.missed or [])}
+    for cid, bases in strands:
+        rs = bychain.get(cid, [])
+        kind = "DNA" if all(b[0] == "D" for b in bases) else "RNA" if all(b[0] == "R" for b in bases) else "chimeric"
+        if len(rs) != len(bases):
+            pr.append(({"ff": ff, "kind": "strand-residues", "strand": kind}, f"strand {cid}: {len(bases)} nucleotides in the input, {len(rs)} in the final model"))
+            continue
+        total, full = Decimal(0), True
+        for i, (res, b) in enumerate(zip(rs, bases)):
+            pos = "5" if i == 0 else "3" if i == len(bases) - 1 else "m"
+            ctx.count("nucleotide-cells", f"{ff}:{b}:{pos}")
+            if ctx.driver.available():
+                atoms, lk = nuc_model(ctx, b, pos)
+                names = [a.name for a in res.atoms]
+                if sorted(names) != sorted(atoms):
+                    pr.append(({"ff": ff, "kind": "nucleotide-atoms", "state": lk}, f"{res} ({lk}): atoms {sorted(set(names) ^ set(atoms))} differ from the run-time reference of the model"))
+                if res.ffname != lk:
+                    pr.append(({"ff": ff, "kind": "nucleotide-name", "state": lk}, f"{res}: looked up as {res.ffname!r}, model says {lk!r}"))
+            if any(id(a) in missed for a in res.atoms):
+                full = False
+                if ff in c01.NUC_FFS[b[0]]:
+                    pr.append(({"ff": ff, "kind": "nucleotide-unparameterised", "state": b + {"5": "5", "3": "3", "m": ""}[pos]}, f"{res}: {ff} defines the nucleotides but atoms {[a.name for a in res.atoms if id(a) in missed][:4]} have no parameters"))
+            total += Decimal(repr(res.charge))
+        if full:
+            want = -(len(bases) - 1)
+            ctx.count("strand-total", f"{ff}:{kind}:{'ok' if abs(total - want) <= Decimal('1e-6') else 'off'}")
+            if abs(total - want) > Decimal("1e-6"):
+                pr.append(({"ff": ff, "kind": "strand-total", "strand": kind, "off_by": str(abs(total - want).quantize(Decimal("0.0001")))}, f"strand {cid} ({'-'.join(bases)}): charge {total}, -1 per phosphate is {want}"))
+    for res in bio.residues:
+        if kind_of(res) == "w" and not any(id(a) in missed for a in res.atoms) and abs(Decimal(repr(res.charge))) > Decimal("1e-6"):
+            pr.append(({"ff": ff, "kind": "water-charge"}, f"{res}: charge {res.charge}"))
+    return pr
+
+
+def chimeric_requests(rng):
+    """a DNA 5' end followed by an RNA 3' end (and the reverse): known finding (chimeric_strand_refuted)"""
+    for ff in ("AMBER", "TYL06"):
+        for bases in (["DA", "RU"], ["RG", "DC", "DT"]):
+            res = [G.nucleotide(b, "A", 1 + i, (12.0 * i, 0.0, 0.0)) for i, b in enumerate(bases)]
+            yield G.to_pdb([res]), ff, [f"--ff={ff}", "--whitespace", "--keep-chain"], {"nucleic:chimeric"}, [("A", bases)]
+
+
+# ------------------------------------------------------------ chain ends as the input file delimits them
+
+SIDE = {"ASP": -1, "GLU": -1, "LYS": 1, "ARG": 1}
+
+
+def gen_segments(rng: random.Random):
+    """2-3 complete peptide segments whose ends the FILE makes explicit (a TER record and/or a change of the chain
+    identifier), with blank or lettered chain ids, with/without a TER after the last segment, first segments with/without OXT"""
+    nseg = rng.choice([2, 2, 3])
+    blank = rng.random() < 0.6
+    ter_last = rng.random() < 0.5
+    lines, serial, request = [], 1, []
+    feats = {"blank-ids" if blank else "lettered-ids", "ter-after-last" if ter_last else "no-ter-after-last", f"segments:{nseg}"}
+    for si in range(nseg):
+        _f, res = G.window(rng, rng.choice([2, 3, 4, 5]))
+        G.set_chain(res, " " if blank else "ABC"[si], 1 + 30 * si)
+        G.rigid(res, [[1, 0, 0], [0, 1, 0], [0, 0, 1]], (70.0 * si, 0, 0))
+        if rng.random() < 0.4 and not any(a.name == "OXT" for a in res[-1]):
+            c = next(a for a in res[-1] if a.name == "C")
+            o = c.copy()
+            o.name, o.elem = "OXT", "O"
+            o.x += 1.2
+            res[-1].append(o)
+            feats.add("segment-with-OXT")
+        else:
+            feats.add("segment-without-OXT")
+        for r in res:
+            for a in r:
+                lines.append(a.line(serial))
+                serial += 1
+        if si < nseg - 1 or ter_last:
+            lines.append("TER")
+        request.append([(r[0].resn, r[0].resseq) for r in res])
+    lines.append("END")
+    return "\n".join(lines) + "\n", feats, request
+
+
+def check_segments(ctx: Ctx, ff, run, request):
+    """every segment the file delimits is a chain: its first residue carries +1, its last -1 on top of the side chain"""
+    pr = []
+    byseq = {}
+    for res in run.biomolecule.residues:
+        byseq.setdefault(res.res_seq, []).append(res)
+    missed = {id(a) for a in (run.missed or [])}
+    for seg in request:
+        for k, (resn, seq) in enumerate(seg):
+            cands = [r for r in byseq.get(seq, []) if r.name[:3] == resn or True]
+            if len(cands) != 1:
+                pr.append(({"ff": ff, "kind": "segment-residue"}, f"{resn} {seq}: {len(cands)} residues with that number in the final model"))
+                continue
+            res = cands[0]
+            if any(id(a) in missed for a in res.atoms) or resn in ("HIS", "CYS"):
+                continue
+            want = SIDE.get(resn, 0) + (1 if k == 0 else 0) - (1 if k == len(seg) - 1 else 0)
+            q = Decimal(repr(res.charge))
+            if abs(q - want) > Decimal("1e-6"):
+                where = "first" if k == 0 else "last" if k == len(seg) - 1 else "inner"
+                pr.append(({"ff": ff, "kind": "segment-end-charge", "where": where}, f"{res} ({where} residue of a segment the file delimits by TER / chain id): charge {q}, expected {want}"))
+    return pr
+
+
 def run(ctx: Ctx):
     rng = ctx.rng
     ctx.extra["rule"] = (
@@ -315,10 +445,62 @@ def run(ctx: Ctx):
                 continue
             seen.add(k)
             ctx.violate(sig, msg, {"pdb": text, "options": opts, "ff": ff, "stage": "pipeline"})
+    run_extra(ctx)
+
+
+def run_extra(ctx: Ctx):
+    """streams added with the nucleic-acid model and the round-4 seeded defects"""
+    rng = ctx.rng
+    seen = set()
+
+    def report(pr, replay):
+        for sig, msg in pr:
+            k = tuple(sorted(sig.items()))
+            if k in seen:
+                continue
+            seen.add(k)
+            ctx.violate(sig, msg, replay)
+
+    reps = ctx.scale(1, 12)
+    for _ in range(reps):
+        for text, ff, opts, feats, strands in list(c01.nucleic_requests(rng)) + list(chimeric_requests(rng)):
+            r = G.run_pipeline(text, opts)
+            ctx.evaluations += 1
+            ctx.count("strand-run", r.status)
+            for f in feats:
+                ctx.count("strand-features", f)
+            ctx.distinct.add(("strand", ff, tuple(tuple(b) for _c, b in strands)))
+            if r.status != "ok":
+                report([({"ff": ff, "kind": "strand-run-failed", "strand": "chimeric" if "nucleic:chimeric" in feats else "plain"}, f"a complete nucleic-acid strand fails under {ff}: {r.status}: {str(r.exc)[:120]}")],
+                       {"pdb": text, "options": opts, "ff": ff, "stage": "strand", "strands": strands})
+                continue
+            report(check_strands(ctx, ff, r, strands) + check_charges(ctx, ff, r), {"pdb": text, "options": opts, "ff": ff, "stage": "strand", "strands": strands})
+    for i in range(ctx.scale(16, 400)):
+        text, feats, request = gen_segments(rng)
+        ff = ("AMBER", "PARSE", "CHARMM")[i % 3]
+        opts = [f"--ff={ff}", "--whitespace"]
+        r = G.run_pipeline(text, opts)
+        ctx.evaluations += 1
+        ctx.count("segment-run", r.status)
+        for f in feats:
+            ctx.count("segment-features", f)
+        ctx.distinct.add(("segments", ff, tuple(sorted(feats))))
+        if r.status != "ok":
+            continue
+        report(check_segments(ctx, ff, r, request), {"pdb": text, "options": opts, "ff": ff, "stage": "segments", "request": request})
 
 
 def replay(ctx: Ctx, data: dict) -> bool:
     rp = data.get("replay", data)
+    if rp.get("stage") in ("strand", "segments"):
+        r = G.run_pipeline(rp["pdb"], rp["options"])
+        print("status:", r.status, r.exc)
+        if r.status != "ok":
+            return rp["stage"] == "strand"
+        pr = check_strands(ctx, rp["ff"], r, [tuple(x) for x in rp["strands"]]) if rp["stage"] == "strand" else check_segments(ctx, rp["ff"], r, rp["request"])
+        for p in pr:
+            print(p)
+        return bool(pr)
     if rp.get("stage") == "set_termini":
         before, bits, after, bio = real_set_termini(rp["pdb"], rp["neutraln"], rp["neutralc"])
         pr = check_termini(after, bits, bio) if not isinstance(after, str) else [("error", after)]
